@@ -157,9 +157,14 @@ def run_template(t, target='qbe'):
             rargs.append(a)
         ref = rv.run(t.entry, rargs)
         # reference unwinding check: the precondition must keep the reference inside its bounds
-        r, _ = solver.check([pre, ref.exceeded])
-        if r != 'unsat':
-            raise Inconclusive('reference evaluator bound can be exceeded under the precondition')
+        if t.meta.get('nonterm_ok'):
+            # loop conditions of this family are loop-invariant: a run that exceeds the unrolling never terminates,
+            # and non-terminating runs are outside the obligation ("if it returns at all")
+            outcomes = [o for o in outcomes if o.kind != 'bound']
+        else:
+            r, _ = solver.check([pre, ref.exceeded])
+            if r != 'unsat':
+                raise Inconclusive('reference evaluator bound can be exceeded under the precondition')
         # vacuity witness: at least one path is feasible (they are, by construction) and pre is satisfiable
         r, wm = solver.check([pre])
         res['witness'] = (r == 'sat')
